@@ -59,18 +59,20 @@ Proof.
 Qed.
 
 (** * every stored legal move of positive weight is returned for some random number, and that
-    number is one Random::nextInt can deliver when the sum is at most 2^30 *)
+    number is one Random::nextInt delivers (the weight sum being within the limit the probe
+    accepts; above it the probe gives no move at all, see [over_limit_no_move]) *)
 Theorem positive_weight_reachable : forall f key pos legal e,
   sortedFile f -> In e (fileEntries f) -> entHash e = key -> (0 < entWeight e)%N ->
   (forall e', In e' (fileEntries f) -> entHash e' = key -> In (getMove pos (entMove e')) legal) ->
-  exists pr rnd, getBookEntriesPG f key pos = Some pr /\
-    0 <= rnd < weightSum pgWeight (pr_cands pr) /\
-    pgBookMove f key pos legal rnd = Some (OutMove (getMove pos (entMove e))) /\
-    (weightSum pgWeight (pr_cands pr) <= 1073741824 ->
+  exists pr, getBookEntriesPG f key pos = Some pr /\
+    (weightSum pgWeight (pr_cands pr) <= sumLimit ->
+     exists rnd, 0 <= rnd < weightSum pgWeight (pr_cands pr) /\
+       pgBookMove f key pos legal rnd = Some (OutMove (getMove pos (entMove e))) /\
        nextIntTry (weightSum pgWeight (pr_cands pr)) (Z.to_N rnd) = Some rnd).
 Proof.
   intros f key pos legal e Hs Hin Hk Hw Hlegal.
   destruct (sorted_book_exact f key pos Hs) as [pr [Hp Hc]].
+  exists pr. split; [exact Hp|]. intros Hlim.
   assert (Hall : Forall (fun c => In (fst c) legal) (pr_cands pr)).
   { rewrite Hc. apply Forall_forall. intros c Hc'. apply in_map_iff in Hc'. destruct Hc' as [e' [<- He']].
     apply filter_In in He'. destruct He' as [He' Hk']. apply N.eqb_eq in Hk'. cbn [decodeCand fst].
@@ -80,48 +82,61 @@ Proof.
   assert (Hme : In (getMove pos (entMove e), Z.of_N (entWeight e)) (pr_cands pr)).
   { rewrite Hc. change (getMove pos (entMove e), Z.of_N (entWeight e)) with (decodeCand pos e).
     apply in_map. apply filter_In. split; [exact Hin | apply N.eqb_eq; exact Hk]. }
-  destruct (getBookMove_reachable pgWeight legal (pr_cands pr) _ _ Hall Hnn Hme) as [rnd [Hr Hg]];
+  destruct (getBookMove_reachable pgWeight legal (pr_cands pr) _ _ Hall Hnn Hlim Hme) as [rnd [Hr Hg]];
     [unfold pgWeight; lia|].
-  exists pr, rnd. split; [exact Hp|]. split; [exact Hr|]. split.
+  exists rnd. split; [exact Hr|]. split.
   - unfold pgBookMove. rewrite Hp, Hg. reflexivity.
-  - intros Hsum. apply nextIntTry_reaches; lia.
+  - rewrite sumLimit_val in Hlim. apply nextIntTry_reaches; lia.
 Qed.
 
-(** * the int weight sum *)
-Theorem weight_sum_range : forall f key pos pr, getBookEntriesPG f key pos = Some pr ->
+(** * the int weight sum: no guard on the number of entries is needed any more *)
+Theorem weight_sum_range : forall f key pos legal pr, getBookEntriesPG f key pos = Some pr ->
   Forall weightOk (pr_cands pr) /\
-  (Z.of_nat (length (pr_cands pr)) * 65535 <= intMax -> sumsInInt pgWeight (pr_cands pr) 0 = true) /\
-  0 <= weightSum pgWeight (pr_cands pr) <= Z.of_nat (length (pr_cands pr)) * 65535.
+  loop1InInt pgWeight legal (pr_cands pr) 0 = true /\
+  (forall sum, sumLegal pgWeight legal (pr_cands pr) 0 = Some sum ->
+     0 <= sum <= sumLimit /\ sum = weightSum pgWeight (pr_cands pr) /\ sumsInInt pgWeight (pr_cands pr) 0 = true).
 Proof.
-  intros f key pos pr Hp.
+  intros f key pos legal pr Hp.
   destruct (probe_terminates f key pos) as [pr' [Hp' [_ [_ [_ Hc]]]]].
   rewrite Hp in Hp'. inversion Hp'; subst pr'; clear Hp'.
   assert (Hw : Forall weightOk (pr_cands pr)).
   { rewrite Hc. apply collect_weights. intros i. apply entWeight_range. }
   split; [exact Hw|]. split.
-  - intros Hb. apply sumsInInt_bound; [exact Hw | lia | lia].
-  - apply weightSum_bounds. exact Hw.
+  - apply loop1InInt_ok; [exact Hw | rewrite sumLimit_val; lia].
+  - intros sum Hs. pose proof (sumLegal_le_limit _ _ _ _ Hs) as Hle.
+    apply sumLegal_some in Hs. destruct Hs as [-> [_ Hpref]].
+    pose proof (weightSum_bounds _ Hw). split; [lia|]. split; [lia|].
+    apply sumsInInt_of_prefixes; [exact Hw | lia | exact Hpref].
 Qed.
 
-(** beyond the guard the accumulator does overflow (finding F7) *)
-Theorem weight_sum_overflow_witness :
-  exists ents, Forall weightOk ents /\ Z.of_nat (length ents) = 32769 /\ sumsInInt pgWeight ents 0 = false.
-Proof. exists f7_entries. destruct f7_overflows as [A [B [C _]]]. auto. Qed.
+(** above the limit the probe gives no move (for every legal list and random number) *)
+Theorem over_limit_no_move : forall wf legal ents rnd,
+  (forall e, In e ents -> 0 <= wf (snd e)) -> sumLimit < weightSum wf ents ->
+  getBookMove wf legal ents rnd = OutMove emptyMove.
+Proof.
+  intros wf legal ents rnd Hnn Hgt. unfold getBookMove.
+  destruct ents as [|e t]; [reflexivity|].
+  destruct (sumLegal wf legal (e :: t) 0) as [sum|] eqn:Hs; [|reflexivity].
+  pose proof (sumLegal_le_limit _ _ _ _ Hs). apply sumLegal_some in Hs. destruct Hs as [-> _]. lia.
+Qed.
 
-(** * Random::nextInt: inside the range every value below the sum can be delivered and only such
-    values; above 2^30 no trial is ever accepted *)
-Theorem nextInt_range : forall sum, 0 < sum ->
+(** * Random::nextInt: whenever Book::getBookMove reaches the draw, 0 < sum <= 2^30, so every trial
+    of the rejection loop is accepted with probability above one half (the loop ends with
+    probability one), only values below the sum come out, and every such value can come out *)
+Theorem choice_terminates : forall wf legal ents sum,
+  sumLegal wf legal ents 0 = Some sum -> 0 < sum ->
+  sum <= 1073741824 /\
+  536870912 < nextIntMaxVal sum <= 1073741824 /\
+  (forall u, Z.of_N u mod 1073741824 < nextIntMaxVal sum -> nextIntTry sum u <> None) /\
   (forall u r, nextIntTry sum u = Some r -> 0 <= r < sum) /\
-  (sum <= 1073741824 -> forall rnd, 0 <= rnd < sum -> nextIntTry sum (Z.to_N rnd) = Some rnd).
+  (forall rnd, 0 <= rnd < sum -> nextIntTry sum (Z.to_N rnd) = Some rnd).
 Proof.
-  intros sum Hs. split.
+  intros wf legal ents sum Hs Hpos.
+  pose proof (sumLegal_le_limit _ _ _ _ Hs) as Hle. rewrite sumLimit_val in Hle.
+  split; [exact Hle|]. split; [apply nextIntMaxVal_large; lia|]. split; [|split].
+  - intros u Hu. apply nextIntTry_accepts; [lia|exact Hu].
   - intros u r H. eapply nextIntTry_sound; eauto.
-  - intros Hb rnd Hr. apply nextIntTry_reaches; lia.
-Qed.
-
-Theorem nextInt_hang_witness : exists sum, 0 < sum <= intMax /\ forall u, nextIntTry sum u = None.
-Proof.
-  exists (16385 * 65535). split; [unfold intMax; lia|]. intros u. apply nextIntTry_rejects. lia.
+  - intros rnd Hr. apply nextIntTry_reaches; lia.
 Qed.
 
 (** * built-in book: the same filter *)
@@ -140,6 +155,7 @@ Qed.
 Theorem builtin_reachable : forall bm zob wf legal m c,
   Forall (fun e => In (fst e) legal) (getBookEntriesBuiltin bm zob) ->
   (forall e, In e (getBookEntriesBuiltin bm zob) -> 0 <= wf (snd e)) ->
+  weightSum wf (getBookEntriesBuiltin bm zob) <= sumLimit ->
   In (m, c) (getBookEntriesBuiltin bm zob) -> 0 < wf c ->
   exists rnd, 0 <= rnd < weightSum wf (getBookEntriesBuiltin bm zob) /\
               builtinBookMove bm zob wf legal rnd = OutMove m.
@@ -312,9 +328,18 @@ Proof. vm_compute. reflexivity. Qed.
 Example ex_codec : deSerialize (serialize 0x463b96181691fc9c 796 65535) = mkEnt 0x463b96181691fc9c 796 65535.
 Proof. vm_compute. reflexivity. Qed.
 
-(** the weight-sum guard is tight: 32768 entries of 65535 fit, see [weight_sum_overflow_witness] *)
-Example ex_sum_fits : 32768 * 65535 <= intMax /\ intMax < 32769 * 65535.
-Proof. unfold intMax; lia. Qed.
+(** the crafted lists of the former findings: 16385 and 32769 entries of weight 65535 under one key.
+    The guarded first loop stays inside [int] and gives no move; without the guard the prefix sums
+    of 32769 such entries leave [int] and nextInt would reject every trial for 16385 of them. *)
+Example ex_former_findings :
+  let big := f7_entries in
+  let mid := repeat (mkMove 12%N 28%N 0%N, 65535) (Z.to_nat 16385) in
+  loop1InInt pgWeight [mv 12 28] big 0 = true /\ getBookMove pgWeight [mv 12 28] big 5 = OutMove emptyMove /\
+  loop1InInt pgWeight [mv 12 28] mid 0 = true /\ getBookMove pgWeight [mv 12 28] mid 5 = OutMove emptyMove /\
+  sumsInInt pgWeight big 0 = false /\ weightSum pgWeight mid = 1073790975 /\
+  getBookMove pgWeight [mv 12 28] (repeat (mkMove 12%N 28%N 0%N, 65535) (Z.to_nat 16384) ++ [(mv 12 28, 16384)]) 1073741823
+    = OutMove (mv 12 28).
+Proof. vm_compute. auto 10. Qed.
 
 (** built-in book path: addToBook counts repeated moves; the probe filters *)
 Example ex_builtin :
